@@ -486,6 +486,9 @@ def c06(ctx, res):
                 continue
             files.append(origin.to_bytes(2, "big") + b"\xF0\x25" * n)
             files.append(origin.to_bytes(2, "big") + b"\xF0\x25" * n + b"\x00")  # odd length
+            if origin in (0x0000, 0x3000, 0xFFFE):
+                # (once more: of two neighbours at most one is delivered through a FIFO, where a file has no size to ask for)
+                files.append(origin.to_bytes(2, "big") + b"\xF0\x25" * n)
 
     # odd-length files that look like a good image with something stuck on: a line end, blanks, a tab, NUL,
     # half of a further word
